@@ -22,6 +22,8 @@ def sem_vs_c(chk, ents):
     rng = np.random.default_rng(chk.seed)
     with lean.Driver("driver") as d:
         for e in ents:
+            if str(getattr(e, "options", {}).get("scalar_type", "float64")) != "float64":
+                continue  # the Float driver models the float64 kernels only (e.g. the complex-mode demo)
             try:
                 objs, cases, comp, mod = numeric.build(e, {})
             except Exception as ex:
